@@ -161,6 +161,18 @@ AppJudge(transport, before, done, seg, ctx, rpl, aux) ==
     \cup (IF c.ans = "must" /\ answered
           THEN { << c.prop, t >> : t \in RelationFails(c, transport, before, seg, ctx, rpl, aux) }
           ELSE {})
+    (* a request the statements leave open may be answered or not - but if the protocol's own *)
+    (* responder answers it, the answer still has to be one of that protocol: the parts of the *)
+    (* relation that do not depend on the unspecified request fields                           *)
+    \cup (IF c.ans = "any" /\ answered /\ who = Family(c.proto)
+          THEN CASE c.proto = "HTTP"  -> { << "C13", t >> : t \in Http401Fails(rpl) }
+                 [] c.proto = "SSH"   -> IF rpl = SSH_REPLY THEN {} ELSE { << "C18", "ssh-exact-server-banner" >> }
+                 [] c.proto = "GHOST" -> { << "C18", t >> : t \in GhostFails(rpl, aux.inflated) }
+                 [] c.proto = "STUN"  -> IF Len(seg) >= 20
+                                         THEN { << "C15", t >> : t \in StunSuccessFails(seg, rpl, ctx.ver, ctx.src, ctx.sport) }
+                                         ELSE {}
+                 [] OTHER -> {}
+          ELSE {})
     (* C10: signature-dispatched responders answer only what the signature set identifies *)
     \cup (IF answered /\ who \in SigResponders /\ id \in { "none", "undecided" }
           THEN { << "C10", "answered-without-completed-signature" >> } ELSE {})
